@@ -44,6 +44,13 @@ def cases(ctx):
         n = rng.choice([56, 112])
         f = spec.background(rng, n, "rand")
         yield from one(f, k % 2, "random", legacy=(k % 10 == 0))
+    for k in range(ctx.n(300, 5000)):
+        n = rng.choice([56, 112])
+        f = spec.background(rng, n, "rand")
+        m = hex_of(f)
+        order = [1, 0, 0, 1] if k % 2 else [0, 1, 1, 0]
+        for enc in order:
+            yield dict(op="crc %s %d" % (m, enc), real=(C, [m, bool(enc)]), expect=str(spec_crc(f, enc)), tag="sequence")
     yield from one([0] * 56, 0, "zero")
     yield from one([1] * 112, 0, "ones")
     # --- the property itself on the real code: parity closure and error detection
